@@ -71,6 +71,7 @@ def exec (line : String) : String :=
           | "batch_concat", xs, [] => showR (batchConcat xs)
           | "split", [x], [d, n] => showR (split x d n)
           | "batch_split", [x], [n] => showR (batchSplit x n)
+          | "sce", [x, t], [d] => showR (softmaxCrossEntropy x t d)
           | _, _, _ => "bad-op"
 
 def step (_ : Unit) (line : String) : Unit × String := ((), exec line)
